@@ -86,6 +86,22 @@ def tensor_check(case):
                 if other != sign * ref:
                     return False, (f"{cls.__name__}(T, {u2}, {l2}, {bk}) = {other} "
                                    f"but expected {sign} * {ref}")
+    # the same orderings reached by renaming indices inside the finished
+    # tensor (sympy's simultaneous substitution re-runs the constructor on
+    # placeholder objects)
+    if not repeated and len(set(up) & set(lo)) == 0:
+        for pu in perms_u[:3]:
+            for pl in perms_l[:3]:
+                sub = {up[k]: up[pu[k]] for k in range(len(up)) if up[k] != up[pu[k]]}
+                sub.update({lo[k]: lo[pl[k]] for k in range(len(lo)) if lo[k] != lo[pl[k]]})
+                if not sub:
+                    continue
+                # the index now at position k is up[pu[k]]: ordering pu
+                sign = (parity(pu) * parity(pl)) if anti else 1
+                other = ref.subs(sub, simultaneous=True)
+                if other != sign * ref:
+                    return False, (f"{ref}.subs({sub}, simultaneous=True) = {other} but expected "
+                                   f"{sign} * {ref}")
     # tuples not related by the symmetry are not identified
     for k in range(len(POOL)):
         s = mk(k)
